@@ -312,6 +312,17 @@ pub fn act(w: &mut World, op: &Op) -> bool {
                 None => false,
             }
         }
+        Op::RespondOtherKind { node, sel: s } => {
+            let i = *node as usize % n;
+            match sel(&w.nodes[i].held_req, *s) {
+                Some(k) => {
+                    let (addr, req) = w.nodes[i].held_req.remove(k);
+                    w.respond_other_kind(i, addr, req);
+                    true
+                }
+                None => false,
+            }
+        }
         Op::Replay { d, from } => match sel(&w.log, *d) {
             Some(i) => {
                 let dg = w.log[i].clone();
